@@ -34,14 +34,18 @@ def fr(tc, mt, payload=b"", **kw):
     return P.mkframe(mt, payload, timecode=tc, **kw)
 
 
-def setup_events(tc, with_e: bool) -> List[List]:
+def setup_events(tc, with_e: bool, pop: str = "full") -> List[List]:
     ev = []
     for s in SLOTS:
         if s == "E" and not with_e:
             continue
+        if pop == "all-only" and s in ("L", "F"):
+            continue  # nobody names FAILED_MESSAGE and no logger is connected: the only observer of notices is A (subscribed to everything)
         lg = 1 if s == "L" else 0
         ev += [["conn", s], ev_send(s, fr(tc, P.MT_CONNECT_V2, P.p_connect_v2(lg, 0, 0, IDS[s], 0, s.encode()), src_mod_id=IDS[s])), ["settle"]]
-        for t in SUBS.get(s, []):
+        for t in SUBS.get(s, []) + ([P.MT_CLIENT_INFO] if (pop == "info" and s in ("S1", "S2")) else []):
+            if pop == "all-only" and t == P.MT_FAILED_MESSAGE:
+                continue
             ev.append(ev_send(s, fr(tc, P.MT_SUBSCRIBE, P.p_sub(t), src_mod_id=IDS[s])))
         ev.append(["settle"])
     return ev
@@ -103,6 +107,26 @@ def scenarios(tier: str) -> List[Dict[str, Any]]:
                     for nw2 in ((), ("S2",), ("F",), ("S1", "A")) if tier == "thorough" else ((), ("S2",)):
                         out.append(dict(tc=tc, grace=grace, flip=flip, label="then-second-delivery", data=b1.hex(), desc=multi, nw=list(nw), dead=list(dead), how=how,
                                         departure=False, follow=[[b2.hex(), list(nw2)], [b1.hex(), []]]))
+        # the only observer of notices is subscribed to everything (nobody names FAILED_MESSAGE, no logger connected)
+        for label, data, desc in kinds(tc)[:2]:
+            for nw in ([], ["S1"], ["S2"], ["S1", "S2"]):
+                for dead in ([], ["S1"], ["S2"]):
+                    if set(dead) & set(nw) or not (nw or dead):
+                        continue
+                    for how in (("fin", "rst") if dead else ("-",)):
+                        out.append(dict(tc=tc, grace=grace, flip=flip, label=label + "/observers-by-ALL-only", data=data.hex(), desc=dict(desc, multi=True), nw=nw, dead=dead, how=how,
+                                        departure=False, pop="all-only"))
+        # a message the manager originates itself (CLIENT_INFO after P's MODULE_READY / CLIENT_SET_NAME) cannot be delivered to
+        # some of its subscribers; a second one follows (what one publication leaves behind must not leak into the next)
+        infos = fr(tc, P.MT_MODULE_READY, P.P_READY.pack(4321), src_mod_id=IDS["P"])
+        names = fr(tc, P.MT_CLIENT_SET_NAME, P.P_NAME.pack(b"pee"), src_mod_id=IDS["P"])
+        for nw in ([], ["S1"], ["A"], ["S1", "L"]):
+            for dead in ([], ["S1"], ["S2"], ["S1", "S2"], ["L"]):
+                if set(dead) & set(nw) or not (nw or dead):
+                    continue
+                for how in (("fin", "rst") if dead else ("-",)):
+                    out.append(dict(tc=tc, grace=grace, flip=flip, label="client-info", data=infos.hex(), desc=dict(mt=P.MT_CLIENT_INFO, dest=0, notice=True, multi=True),
+                                    nw=nw, dead=dead, how=how, departure=False, pop="info", follow=[[names.hex(), []]]))
         # a CLIENT_CLOSED caused by a departure, undeliverable to some of its subscribers
         for k in range(3):
             for nw in itertools.combinations(["S1", "S2", "F", "A", "L"], k):
@@ -123,7 +147,7 @@ def execute(args) -> Dict[str, Any]:
     probs: List[Dict[str, Any]] = []
     nready = 0
     try:
-        for ev in setup_events(tc, sc["departure"]):
+        for ev in setup_events(tc, sc["departure"], sc.get("pop", "full")):
             env.apply(ev)
         mark = {s: len(env.received[s]) for s in env.received}
         for d in sc["dead"]:
